@@ -1313,7 +1313,16 @@ private:
 
         std::optional<std::filesystem::path> output_path;
         if (const auto out_it = fields.find("OUT"); out_it != fields.end()) {
-            output_path = std::filesystem::absolute(std::filesystem::path(out_it->second));
+            std::error_code path_error;
+            auto resolved = std::filesystem::absolute(std::filesystem::path(out_it->second), path_error);
+            if (path_error) {
+                auto error = make_error("ERR_FETCH_OUT_INVALID",
+                                        "Invalid OUT path",
+                                        "Provide a non-empty destination path");
+                respond_error(std::move(error), "destination_invalid");
+                return;
+            }
+            output_path = std::move(resolved);
         }
 
         bool stream_to_client = false;
